@@ -500,11 +500,16 @@ struct SlabEngine : Engine {
 
 	void do_poison(int kind, void *p, size_t n) {
 		if (calibrating || !n) return;
+		sync_hook(); // a call into the policy is a visible action: other tasks may run between the pool's last lock operation / access and this call
 		if (!in_policy(p)) violation("pool_touches_unmapped_byte", "poison hook called on %p which is outside the policy's memory", p);
 		uint64_t o = off(p);
 		Region *r = find_region(o);
 		if (!r || o + n > r->base + r->len) violation("pool_touches_unmapped_byte", "poison/unpoison of +0x%llx..+%zu which is not inside one mapped region", (unsigned long long)o, n);
 		logev(0x4010 + kind, o, n);
+		if (kind == 0) { // the pool may not take away bytes somebody is using: poisoning inside the requested bytes of a live block (not the one this call works on)
+			auto it = live_by_addr.upper_bound(o + n - 1);
+			if (it != live_by_addr.begin()) { --it; Block &x = blk[it->second]; if (!x.inflight && x.req && it->first + x.req > o) violation("not_unpoisoned", "pool code (task %d) poisons +0x%llx (%zu bytes) inside the requested bytes of live block #%d [+0x%llx, +%zu) owned by task %d", cur_task(), (unsigned long long)o, n, it->second, (unsigned long long)it->first, x.req, x.owner); }
+		}
 		if (granule) {
 			// a shadow with 8-byte granules (KASAN): a granule is either invalid or valid up to some byte, so poisoning from
 			// the middle of a granule invalidates the whole granule, and both calls extend to the end of the last granule
@@ -658,6 +663,8 @@ struct SlabEngine : Engine {
 	}
 	void verify(int h, size_t upto, uint64_t pat, const char *what) {
 		Block &b = blk[h];
+		// whenever the owner looks at its block (any task count): the bytes it asked for are accessible — another task's pool call must not poison them
+		if (pi.poison && b.req && !b.inflight) { size_t head = b.req < 256 ? b.req : 256; if (ps_any(off(b.ptr), head, 1) || (b.req > 256 && ps_any(off(b.ptr) + b.req - 64, 64, 1))) violation("not_unpoisoned", "%s: requested bytes of live block #%d (+0x%llx, %zu requested, owned by task %d) are poisoned", what, h, (unsigned long long)off(b.ptr), b.req, b.owner); }
 		auto rd = [&](size_t from, size_t len) {
 			if (from >= upto) return; if (from + len > upto) len = upto - from;
 			user_read(b.ptr + from, len);
@@ -867,6 +874,11 @@ struct SlabEngine : Engine {
 		Block &b = blk[h];
 		verify(h, b.req, b.pat, "before realloc");
 		char *oldp = b.ptr; size_t oldreq = b.req, oldrep = b.reported; uint64_t oldpat = b.pat; size_t oldw = written_size[h];
+		// the source block's red zone (bytes beyond the requested size, up to the capacity) as it is before the call
+		size_t rz = pi.poison && oldrep > oldreq ? std::min<size_t>(oldrep - oldreq, 4096) : 0;
+		if (granule && rz) { size_t skip = (8 - (off(oldp) + oldreq) % 8) % 8; rz = rz > skip ? rz - skip : 0; } // (the granule holding the last requested byte is shared)
+		size_t rz_from = oldreq + (granule ? (8 - (off(oldp) + oldreq) % 8) % 8 : 0);
+		bool rz_poisoned = rz && !ps_any(off(oldp) + rz_from, rz, 0);
 		begin_call(me, op);
 		pages_pre(me);
 		b.inflight = true;
@@ -877,6 +889,7 @@ struct SlabEngine : Engine {
 			b.inflight = false;
 			if (!c.failed_any) violation("realloc_semantics", "realloc(+0x%llx, %zu) returned null although no map call failed", (unsigned long long)off(oldp), n);
 			after_failed(me, op, "realloc", h);
+			if (rz_poisoned && ps_any(off(oldp) + rz_from, rz, 0)) violation("mapfail_side_effect", "realloc failed but it touched the source block #%d: bytes beyond its requested size (%zu of a capacity of %zu) were poisoned before the call and are not any more", h, oldreq, oldrep);
 			pages_post(me, "realloc");
 			end_call(me);
 			return;
